@@ -2,19 +2,24 @@ package main
 
 // C08 — a failed load or reload leaves nothing behind.
 //
-// Every case is a HISTORY of attempts (load = casket.Start, validate =
+// Every case is a HISTORY of attempts (load = casket.LoadCasketfile + casket.Start, validate =
 // casket.ValidateAndExecuteDirectives(justValidate), execute = the same with justValidate=false on an
 // instance made by the VerifNewInstance hook, reload = Instance.Restart, sigusr1 = a real SIGUSR1
-// through casket.TrapSignals and a registered Casketfile loader) and environment changes (htpasswd file
-// rewritten) that is executed IN-PROCESS in a fresh child process of the harness binary, on loopback
-// (127.0.0.N:0).  After every step the child records the process-global observables: result class and
-// latency, len(casket.Instances()), casket.ListPlugins()["event_hooks"], the process's LISTEN sockets
-// (/proc/self/net/tcp{,6} joined with the fd table), and the responses of every running site (marker
-// header, basic-auth behaviour, log-roller behaviour).  Each history is run twice: as it is, and with the
-// attempts on invalid configurations erased ("what a process that never saw the failures does").  The Coq
-// side evaluates the faithful model on the same history (correspondence) and an executable statement of
-// the property on the observations alone (frame of every failed attempt; valid => ok in bounded time;
-// every surviving step indistinguishable from the failure-free run).
+// through casket.TrapSignals and a registered Casketfile loader that reads a file) and environment changes
+// (htpasswd file rewritten) that is executed IN-PROCESS in a fresh child process of the harness binary, on
+// loopback (127.0.0.N:0).  Fault kinds: parse errors, bad directive arguments at four places of the directive
+// order, htpasswd files, failing startup callbacks, ports in use, the Casketfile being unloadable at that
+// moment (removed / unreadable / loader returning an error - for sigusr1: "the loader fails at signal time"),
+// and a plugin directive whose setup panics during a reload (contained by Restart).  After every step the
+// child records the process-global observables: result class and latency, len(casket.Instances()),
+// casket.ListPlugins()["event_hooks"], which of these hooks run when the events are emitted, the process's
+// LISTEN sockets (/proc/self/net/tcp{,6} joined with the fd table), the responses of every running site
+// (marker header, basic-auth behaviour, log-roller behaviour), and which configurations' proxy health-check
+// workers are probing a loopback backend.  Each history is run twice: as it is, and with the attempts on
+// invalid configurations erased ("what a process that never saw the failures does").  The Coq side evaluates
+// the faithful model on the same history (correspondence) and an executable statement of the property on the
+// observations alone (frame of every failed attempt; valid => ok in bounded time; every surviving step
+// indistinguishable from the failure-free run).
 
 import (
 	"bufio"
@@ -1748,7 +1753,7 @@ func c08Gen(r *Rand, tier string) []interface{} {
 func init() {
 	register(&Property{
 		ID: "C08", Imports: "V.Lib V.C08_Model", Judge: "judge", Shard: 40,
-		Rule:   "histories of load (casket.Start) / validate / reload (Instance.Restart) / SIGUSR1 attempts and htpasswd-file rewrites, run in-process in a fresh child of the harness with a watchdog per attempt: templates {load, validate, reload, SIGUSR1, API-driven execute} x {syntax error, unknown directive, missing import, bad argument early/mid/late in directive order, bad `on` line after good ones, htpasswd missing/malformed/without the user, failing startup callback, port in use alone/after another listener} x feature sets (on, log roller, basicauth htpasswd, two listeners), each followed by a valid load/reload using the same files, plus random histories (<= 6 steps quick, <= 10 thorough); every history is also run with the invalid attempts erased; non-trivial = at least one attempt failed and the history ran to its end",
+		Rule:   "histories of load (casket.Start) / validate / reload (Instance.Restart) / SIGUSR1 attempts and htpasswd-file rewrites, run in-process in a fresh child of the harness with a watchdog per attempt: templates {load, validate, reload, SIGUSR1, API-driven execute} x {syntax error, unknown directive, missing import, Casketfile removed / unreadable / loader error at that moment (SIGUSR1: at signal time, with a running configuration that has `on` hooks), bad argument early/mid/late/after proxy in directive order, bad `on` line after good ones, htpasswd missing/malformed/without the user, failing startup callback, port in use alone/after another listener, a plugin whose setup panics during a reload} x feature sets (on, log roller, basicauth htpasswd, proxy with a health check of a loopback backend, two listeners), each followed by a valid load/reload using the same files, plus random histories (<= 6 steps quick, <= 10 thorough); every history is also run with the invalid attempts erased; after every step the events are emitted (which hooks run) and the backend is watched (whose workers probe); non-trivial = at least one attempt failed and the history ran to its end",
 		Gen:    c08Gen,
 		Decode: func(raw json.RawMessage) (interface{}, error) { in := &c08In{}; return in, json.Unmarshal(raw, in) },
 		Run:    c08Run,
